@@ -348,7 +348,7 @@ func altAdmits(a AltAST, c Triple3) bool {
 
 var specC06Select = Register(&Spec[SelectCase]{
 	Prop: "C06", Name: "select",
-	Rule: "random dependency ASTs (C04 generator, canonical spacing) parsed and queried for one of 13 concrete architectures (one-part, three-part and two-part OS-CPU names such as hurd-i386). Oracle on the AST: GetPossibilities returns, per relation and in order, the first non-substvar alternative whose architecture list admits the architecture (nothing for a relation with none); GetAllPossibilities returns every non-substvar alternative in order; GetSubstvars the substvars in order; the same relations built as struct literals (no architecture list = nil) select the same alternatives. Non-trivial: some relation selects a later alternative or selects nothing although it has package alternatives; distinct by (text, arch).",
+	Rule: "random dependency ASTs (C04 generator, canonical spacing) parsed and queried for one of 13 concrete architectures (one-part, three-part and two-part OS-CPU names such as hurd-i386). Oracle on the AST: GetPossibilities returns, per relation and in order, the first non-substvar alternative whose architecture list admits the architecture (nothing for a relation with none); GetAllPossibilities returns every non-substvar alternative in order; GetSubstvars the substvars in order; the same relations built as struct literals (no architecture list = nil) select the same alternatives; the first results, kept while all the other queries (four more architectures among them) are made, still say the same afterwards. Non-trivial: some relation selects a later alternative or selects nothing although it has package alternatives; distinct by (text, arch).",
 	Check: func(c SelectCase, r *Recorder) error {
 		cm, _ := archModel(c.Arch)
 		for _, rel := range c.AST.Rels {
@@ -414,8 +414,17 @@ var specC06Select = Register(&Spec[SelectCase]{
 			}
 			return nil
 		}
-		if err := cmp("GetPossibilities", dep.GetPossibilities(*arch), want); err != nil {
+		// a result is the caller's: it is kept here while every other query below is made (other
+		// architectures included) and judged once more at the end
+		held := dep.GetPossibilities(*arch)
+		heldAll := dep.GetAllPossibilities()
+		if err := cmp("GetPossibilities", held, want); err != nil {
 			return err
+		}
+		for _, other := range []string{"amd64", "hurd-i386", "armhf", "all"} {
+			if oa, oerr := dependency.ParseArch(other); oerr == nil {
+				_ = dep.GetPossibilities(*oa)
+			}
 		}
 		if err := cmp("GetAllPossibilities", dep.GetAllPossibilities(), all); err != nil {
 			return err
@@ -455,6 +464,12 @@ var specC06Select = Register(&Spec[SelectCase]{
 				return errf("GetPossibilities of the hand-built form of %q for %s: entry %d is %q, want %q", c.Text, c.Arch, i, got[i].Name, want[i].Name)
 			}
 		}
+		if err := cmp("GetPossibilities (the result of the first call, looked at again after the other queries)", held, want); err != nil {
+			return err
+		}
+		if err := cmp("GetAllPossibilities (the result of the first call, looked at again after the other queries)", heldAll, all); err != nil {
+			return err
+		}
 		return nil
 	},
 })
@@ -467,10 +482,10 @@ func TestC06_Select(t *testing.T) {
 
 type SatCase struct {
 	Op string   `json:"op"`
-	N  string   `json:"n"`            // the constraint's version text
-	NP VerParts `json:"np"`           // its parts by the renderer (when parsable)
-	OK bool     `json:"nParsable"`    // whether N is a well-formed version
-	V  VerParts `json:"v"`            // the candidate version
+	N  string   `json:"n"`         // the constraint's version text
+	NP VerParts `json:"np"`        // its parts by the renderer (when parsable)
+	OK bool     `json:"nParsable"` // whether N is a well-formed version
+	V  VerParts `json:"v"`         // the candidate version
 	K  string   `json:"kind,omitempty"`
 }
 
